@@ -5,6 +5,8 @@ import (
 	"go/constant"
 	"go/token"
 	"go/types"
+	"sort"
+	"strings"
 
 	"golang.org/x/tools/go/ssa"
 )
@@ -663,27 +665,60 @@ func c09Surfaced(p *Prog, r *Report, e *engine) {
 		}
 		errNil := condNonNil(func(v ssa.Value) bool { return v == sf.Params[2] })
 		partial := func(c ssa.Value) (bool, bool) { return c == ssa.Value(sf.Params[1]), true }
-		var sFail, sPart, sOK ssa.Instruction
-		forEachInstr(sf, func(_ *ssa.BasicBlock, _ int, in ssa.Instruction) {
-			switch {
-			case storeOf(consts["ScanStatusFailed"])(in):
-				sFail = in
-			case storeOf(consts["ScanStatusPartiallySucceeded"])(in):
-				sPart = in
-			case storeOf(consts["ScanStatusSucceeded"])(in):
-				sOK = in
+		_ = storeOf
+		// the status the function leaves behind, path by path: the last constant written to
+		// ScanStatus.Status decides (an initial value overwritten later does not count), and it must
+		// be the one the error and the partial flag on that path call for
+		outs, okEnum := enumOutcomes(sf, func(in ssa.Instruction) (ssa.Value, bool) {
+			if st, ok := in.(*ssa.Store); ok && storesField("ScanStatus", "Status")(in) {
+				return st.Val, true
 			}
-		})
-		if sFail == nil || sPart == nil || sOK == nil {
-			r.Fail("D3-status", fa.key+":stores", p.Pos(sf.Pos()), "StatusFromErr does not set all of Succeeded / PartiallySucceeded / Failed")
+			return nil, false
+		}, []CondPred{errNil, partial}, 256)
+		name := map[int64]string{}
+		for n, k := range consts {
+			name[k] = n
+		}
+		var wrong []string
+		for _, o := range outs {
+			hasErr, errKnown := o.facts[0]
+			isPartial, partKnown := o.facts[1]
+			got := "nothing"
+			if o.opaque {
+				got = "a computed value"
+			} else if o.set {
+				got = name[o.last]
+			}
+			want := ""
+			switch {
+			case !errKnown:
+				want = "a status chosen after testing the error"
+			case !hasErr:
+				want = "ScanStatusSucceeded"
+			case !partKnown:
+				want = "a status chosen after testing the partial flag"
+			case isPartial:
+				want = "ScanStatusPartiallySucceeded"
+			default:
+				want = "ScanStatusFailed"
+			}
+			if got != want {
+				cond := "err untested"
+				if errKnown {
+					cond = map[bool]string{true: "err != nil", false: "err == nil"}[hasErr]
+					if hasErr && partKnown {
+						cond += map[bool]string{true: " && partial", false: " && !partial"}[isPartial]
+					}
+				}
+				wrong = append(wrong, fmt.Sprintf("%s leaves %s, want %s (blocks %v)", cond, got, want, o.blocks))
+			}
+		}
+		sort.Strings(wrong)
+		if !okEnum || len(outs) == 0 {
+			r.Undecided("D3-status", fa.key+":selection", p.Pos(sf.Pos()), "too many paths through StatusFromErr to enumerate")
 		} else {
-			g1, _ := fa.guarded(sFail, true, errNil)
-			g2, _ := fa.guarded(sFail, false, partial)
-			g3, _ := fa.guarded(sPart, true, errNil)
-			g4, _ := fa.guarded(sPart, true, partial)
-			g5, _ := fa.guarded(sOK, false, errNil)
-			r.Check(g1 && g2 && g3 && g4 && g5, "D3-status", fa.key+":selection", p.Pos(sf.Pos()), "err==nil→Succeeded; err!=nil∧partial→PartiallySucceeded; err!=nil∧!partial→Failed",
-				fmt.Sprintf("status selection is wrong (Failed under err!=nil:%v, under !partial:%v; Partial under err!=nil:%v, under partial:%v; Succeeded under err==nil:%v)", g1, g2, g3, g4, g5))
+			r.Check(len(wrong) == 0, "D3-status", fa.key+":selection", p.Pos(sf.Pos()), fmt.Sprintf("err==nil→Succeeded; err!=nil∧partial→PartiallySucceeded; err!=nil∧!partial→Failed on all %d paths", len(outs)),
+				"status selection is wrong: "+strings.Join(wrong, "; "))
 		}
 	}
 	// lazy stat cache
